@@ -32,6 +32,12 @@ def cases_for(ctx, t, depth, rng):
             for style in ("absolute", "relative"):
                 cs.append({"op": "merge", "tree": t, "depth": depth, "d": d, "levels": levels, "style": style, "fn": rng.choice(["sum", "max"]),
                            "via": rng.choice(["tensor", "fiber"])})
+    if depth >= 3:
+        # a swap in which one of the two ranks already holds tuple coordinates (flattened before)
+        for fd in range(depth - 1):
+            for d in range(depth - 2):
+                if d in (fd - 1, fd):
+                    cs.append({"op": "flatswap", "tree": t, "depth": depth, "fd": fd, "d": d, "style": rng.choice(["tuple", "pair"]), "via": "tensor"})
     for d in range(depth):
         cs.append({"op": "splitflatten", "tree": t, "depth": depth, "d": d, "step": rng.randint(1, 3), "via": rng.choice(["tensor", "fiber"])})
         cs.append({"op": "updcoords", "tree": t, "depth": depth, "d": d, "fn": rng.choice(["shift", "reverse", "double"])})
